@@ -119,13 +119,13 @@ for _ax in (0, 1):
 def body_concat_duplicates(env, x0, x1, use_auto):
     """Non-unique labels on the concatenation axis are rejected unless a replacement index is given."""
     sf = env.sf
-    from static_frame.core.exception import ErrorInitIndex
+    from static_frame.core.exception import ErrorInit
     fa = build_frame(env, [[100, 101], [110, 111]], [10, 11], [0, 1], (V, V))
     fb = build_frame(env, [[200, 201], [210, 211]], [x0, x1], [0, 1], (V, V))
     try:
         r = sf.Frame.from_concat((fa, fb), index=sf.IndexAutoFactory if use_auto else None)
         got = ['ok', env.obs(list(r.index.values)), env.obs(r.values.tolist())]
-    except ErrorInitIndex:
+    except ErrorInit:   # ErrorInitFrame / ErrorInitIndex: construction fails instead of producing duplicate labels
         got = ['rejected']
     dup = x0 in (10, 11) or x1 in (10, 11)
     rows = [[100, 101], [110, 111], [200, 201], [210, 211]]
@@ -184,11 +184,17 @@ _add(Cond('series_concat', [('a0', 'int'), ('a1', 'int'), ('b0', 'int'), ('x', '
 
 def mk_overlay(la, lb, tier='quick'):
     def body(env, x0, x1, **kw):
+        from vf import rt
+        x0, x1 = concretize(x0, 0, 2), concretize(x1, 0, 2)
+        kw = {k: bool(v) for k, v in kw.items()}     # one decision per cell; everything concrete afterwards
+        return rt.untraced(lambda: run(env, x0, x1, kw))
+
+    def run(env, x0, x1, kw):
         sf = env.sf
         from static_frame.core.type_blocks import TypeBlocks
         M = 'NaN'
         A_cols = [0, 1]
-        B_cols = [concretize(x0, 0, 2), concretize(x1, 0, 2)]
+        B_cols = [x0, x1]
         index = [10, 11]
 
         def mk(prefix, base, cols, layout):
